@@ -13,6 +13,7 @@ import PdbModel.DriverC10
 import PdbModel.DriverC18
 import PdbModel.DriverC17
 import PdbModel.DriverC13
+import PdbModel.DriverC14
 namespace PdbModel
 
 def parseLevels (t : String) : Option (List ErrorLevel) :=
@@ -51,6 +52,7 @@ def handle (line : String) : String :=
   | "c18" :: rest => (handleC18 rest).getD "BAD-REQUEST"
   | "c17" :: rest => (handleC17 rest).getD "BAD-REQUEST"
   | "c13" :: rest => (handleC13 rest).getD "BAD-REQUEST"
+  | "c14" :: rest => (handleC14 rest).getD "BAD-REQUEST"
   | _ => "BAD-REQUEST"
 
 end PdbModel
